@@ -51,7 +51,7 @@ def merge_stats(list_of_stats, maxkeys=()):
 
 def crash_report(rep, name, p, rc, out, err):
     """A probe that dies (sanitizer report, failed assertion, signal) is a violation of its own."""
-    tail = (err or "")[-1500:]
+    tail = (err or "")[-3000:]
     kind = "crash"
     if "AddressSanitizer" in err:
         kind = "asan"
@@ -61,5 +61,11 @@ def crash_report(rep, name, p, rc, out, err):
         kind = "assert"
     elif rc == -999:
         kind = "timeout"
-    rep.violation("%s:%s" % (name, kind), "probe part %s exited with %s: %s" % (p, rc, tail.strip().splitlines()[-1:] ),
+    lines = (err or "").strip().splitlines()
+    key_lines = [l.strip() for l in lines if "ERROR: AddressSanitizer" in l or "runtime error" in l or "Assertion" in l or
+                 l.startswith("SUMMARY:") or l.startswith("HISTORY ")]
+    hist = [l for l in key_lines if l.startswith("HISTORY ")]
+    other = [l for l in key_lines if not l.startswith("HISTORY ")]
+    shown = (other[:2] + hist[-1:]) or lines[-1:]
+    rep.violation("%s:%s" % (name, kind), "probe part %s exited with %s: %s" % (p, rc, [x[:300] for x in shown]),
                   {"part": p, "rc": rc, "stderr_tail": tail})
